@@ -321,7 +321,10 @@ func (ex *Exec) findNamedValue(st *State, name string, want Sort) *Term {
 func (ex *Exec) atLoopHead(st *State, lp *Loop, predIdx int) bool {
 	h := lp.Header
 	if lp.Con == nil {
-		ex.abort("loop %d has no invariant (every loop needs `//@ loop %d`)", lp.N, lp.N)
+		// a loop the contract does not know (added after the contract was written): cut with the invariant `true`.
+		// Everything the loop may write is havoced; its body is still checked for an arbitrary iteration (frame and
+		// safety obligations), and whatever the function promises afterwards must follow without help.
+		lp.Con = &LoopContract{N: lp.N}
 	}
 	// incoming phi values
 	phiVals := map[*ssa.Phi]Term{}
@@ -911,7 +914,7 @@ func (ex *Exec) applyContract(st *State, c *ssa.Call, con0 *Contract, bindings [
 			if bindings == nil {
 				ex.abort("call of closure %s with captures through an unknown function value", con.Name)
 			}
-			if len(bindings) != len(con.Captures) {
+			if len(bindings) < len(con.Captures) {
 				ex.abort("STALE-CONTRACT: closure %s captures %d variables, contract declares %d", con.Name, len(bindings), len(con.Captures))
 			}
 			for _, b := range con.Captures {
@@ -1325,7 +1328,7 @@ func (ex *Exec) closureContract(v ssa.Value) (*Contract, []ssa.Value) {
 
 func (ex *Exec) closureEnv(st *State, fc *Contract, bindings []ssa.Value, base *Env) *Env {
 	fe := &Env{st: st, pkgPath: fc.PkgPath, info: ex.prog.infoFor(fc.PkgPath), vars: map[string]BVal{}, cur: base.cur, old: base.cur, ghost: base.ghost, ghost0: base.ghost, allocLo: base.allocLo}
-	if len(fc.Captures) != len(bindings) {
+	if len(fc.Captures) > len(bindings) {
 		ex.abort("STALE-CONTRACT: closure %s captures %d variables, contract declares %d", fc.Name, len(bindings), len(fc.Captures))
 	}
 	for _, b := range fc.Captures {
